@@ -1,6 +1,7 @@
 import RimuProofs.Lemmas.Run
 import RimuProofs.Lemmas.PatLemmas
 import RimuProofs.Facts
+import RimuProofs.Regex.Newlines
 import RimuModel.Block
 
 /-!
@@ -13,9 +14,9 @@ Proved for the model:
 * placeholders are restored from the queue in order, each exactly once (`postReplacements_restores_in_order`), text
   without placeholders is left alone and consumes nothing (`postReplacements_plain`), and a missing queue entry is
   an `IndexError`, never a leaked placeholder;
-* the split pattern of the reader is `\r\n|\r|\n` (fact of the generated pattern, as an alternation tree).
-Not proved: invariance of the *regex split* under re-encoding of terminators (it needs completeness of the matcher
-on that pattern); it is checked on re-encoded twins.
+* the split pattern of the reader is `\r\n|\r|\n` (fact of the generated pattern, as an alternation tree), and for this
+  pattern the model's matcher is characterised completely: the reader's lines are the lines of the list function `splitNl`
+  (`reader_lines_are_the_lines`), so re-encoding CR LF and CR as LF changes nothing (`line_terminators_are_interchangeable`).
 -/
 
 namespace Props.C16
@@ -201,6 +202,62 @@ theorem split_pattern_shape :
     Gen.P.io_Reader_init_0.re =
       .alt (.seq (.chr ⟨[(13, 13)], false⟩) (.chr ⟨[(10, 10)], false⟩)) (.alt (.chr ⟨[(13, 13)], false⟩) (.chr ⟨[(10, 10)], false⟩)) := by
   decide +kernel
+
+/-- the reader's pattern, as regenerated from the source, is the pattern characterised in `Regex/Newlines.lean` -/
+theorem reader_pattern : Gen.P.io_Reader_init_0.re = nlRe ∧ Gen.P.io_Reader_init_0.ngroups = 0 := by
+  decide +kernel
+
+/-- **The lines the reader sees** are the lines of the specification `splitNl` (CR LF, CR and LF alike end a line):
+    for this one pattern the model's matcher is characterised completely, not only soundly. -/
+theorem reader_lines_are_the_lines (src : Str) : (Reader.ofText src).rest = splitNl false [] (src.map blank) := by
+  show Gen.P.io_Reader_init_0.split (src.map blank) = _
+  exact split_eq_splitNl _ reader_pattern.1 reader_pattern.2 _
+
+theorem toLF_map_blank : ∀ (t : Str) (b : Bool), (toLF b t).map blank = toLF b (t.map blank) := by
+  intro t
+  induction t with
+  | nil => intro b; simp [toLF]
+  | cons c t ih =>
+    intro b
+    by_cases hn : (c == '\n') = true
+    · have : c = '\n' := by simpa using hn
+      subst this
+      have e : blank '\n' = '\n' := by decide
+      cases b <;> simp [toLF, e, ih]
+    · have hn' : (c == '\n') = false := by simpa using hn
+      by_cases hr : (c == '\r') = true
+      · have : c = '\r' := by simpa using hr
+        subst this
+        have e : blank '\r' = '\r' := by decide
+        have e2 : blank '\n' = '\n' := by decide
+        simp [toLF, e, e2, ih]
+      · have hr' : (c == '\r') = false := by simpa using hr
+        have hb : (blank c == '\n') = false ∧ (blank c == '\r') = false := by
+          unfold blank
+          split
+          · exact ⟨by decide, by decide⟩
+          · exact ⟨hn', hr'⟩
+        simp [toLF, hn', hr', hb.1, hb.2, ih]
+
+/-- **Line terminators are interchangeable.**  Re-encoding every CR LF and every lone CR of a source as LF gives the
+    reader the same lines, hence the same rendering, messages and final session - for every source, not the sampled ones. -/
+theorem line_terminators_are_interchangeable (src : Str) : Reader.ofText (toLF false src) = Reader.ofText src := by
+  have h1 := reader_lines_are_the_lines (toLF false src)
+  have h2 := reader_lines_are_the_lines src
+  rw [toLF_map_blank, splitNl_toLF] at h1
+  have : (Reader.ofText (toLF false src)).rest = (Reader.ofText src).rest := by rw [h1, h2]
+  unfold Reader.ofText at this ⊢
+  simp only at this ⊢
+  rw [this]
+
+theorem render_line_terminators_are_interchangeable (rec : Rec) (env : Env) (fuel : Nat) (src : Str) :
+    documentRender rec env fuel (toLF false src) = documentRender rec env fuel src := by
+  unfold documentRender
+  rw [line_terminators_are_interchangeable]
+
+/-- not vacuous: a text with all three terminators -/
+example : toLF false "a\r\nb\rc\nd\r\r\n".toList = "a\nb\nc\nd\n\n".toList ∧
+    splitNl false [] "a\r\nb\rc\nd".toList = ["a".toList, "b".toList, "c".toList, "d".toList] := by decide
 
 /-- Concrete twins (kernel evaluation): LF / CR LF / CR / mixed terminators and reserved characters. -/
 example :
